@@ -2017,7 +2017,7 @@ BTree_byValue(BTree *self, PyObject *omin)
 
     COPY_VALUE_FROM_ARG(min, omin, copied);
     UNLESS(copied)
-        return NULL;
+        goto err;       /* (not "return":  self is pinned) */
 
     UNLESS (r=PyList_New(0))
         goto err;
